@@ -14,7 +14,7 @@ Definition wpc_eqb (a b : wpc) : bool :=
   end.
 Definition cx_eqb (a b : cx) : bool :=
   mpc_eqb (mp a) (mp b) && wpc_eqb (wp a) (wp b) && Bool.eqb (cancelled a) (cancelled b) &&
-  Bool.eqb (done_closed a) (done_closed b) && Bool.eqb (dl_past a) (dl_past b) && Bool.eqb (ready a) (ready b) &&
+  Bool.eqb (done_closed a) (done_closed b) && Bool.eqb (dl_past a) (dl_past b) && Bool.eqb (ready a) (ready b) && Bool.eqb (half a) (half b) &&
   (op_n a =? op_n b) && Bool.eqb (op_timeout a) (op_timeout b) && Bool.eqb (ret_ctx_err a) (ret_ctx_err b) &&
   (ret_n a =? ret_n b).
 
@@ -124,14 +124,14 @@ Proof. vm_compute. reflexivity. Qed.
 
 (* (c) a wrapped operation that timed out did so because the context ended (the wrapper never times out
        an operation of its own accord) *)
-Definition timeout_ok (s : cx) : bool := implb' (op_timeout s) (cancelled s && (op_n s =? 0)).
+Definition timeout_ok (s : cx) : bool := implb' (op_timeout s) (cancelled s).
 
 Lemma timeout_ok_all : forallb timeout_ok reach = true.
 Proof. vm_compute. reflexivity. Qed.
 
 (* (d) progress: events of the two goroutines (not of the environment) *)
 Definition thread_events : list cev :=
-  [EM_lock; EM_check; EM_add; EM_go; EM_op_data; EM_op_timeout; EM_close_done; EM_wait_return;
+  [EM_lock; EM_check; EM_add; EM_go; EM_op_data; EM_op_timeout; EM_op_partial; EM_close_done; EM_wait_return;
    EW_ctx; EW_done; EW_set_past; EW_recv_done; EW_restore].
 
 Definition can_move (s : cx) : bool :=
@@ -154,7 +154,7 @@ Definition rank (s : cx) : Z :=
 
 Definition rank_ok (s : cx) : bool :=
   forallb (fun e => match cxstep s e with Some s' => rank s' <? rank s | None => true end) thread_events &&
-  forallb (fun e => match cxstep s e with Some s' => rank s' <=? rank s | None => true end) [EN_cancel; EN_ready].
+  forallb (fun e => match cxstep s e with Some s' => rank s' <=? rank s | None => true end) [EN_cancel; EN_ready; EN_half].
 
 Lemma rank_ok_all : forallb rank_ok reach = true.
 Proof. vm_compute. reflexivity. Qed.
@@ -172,7 +172,7 @@ Fixpoint account (s : cx) (h : list cev) (xfer rep : Z) : option (cx * Z * Z) :=
       | None => None
       | Some s' =>
           account s' h'
-            (match e with EM_op_data => xfer + 1 | _ => xfer end)
+            (match e with EM_op_data | EM_op_partial => xfer + 1 | _ => xfer end)
             (match e with EM_wait_return => rep + ret_n s' | _ => rep end)
       end
   end.
@@ -243,11 +243,10 @@ Proof.
 Qed.
 
 Theorem timeout_only_after_cancel h s :
-  cxrun cx0 h = Some s -> op_timeout s = true -> cancelled s = true /\ op_n s = 0.
+  cxrun cx0 h = Some s -> op_timeout s = true -> cancelled s = true.
 Proof.
   intros Hr Hd. pose proof (check_all timeout_ok timeout_ok_all h s Hr) as H.
-  unfold timeout_ok, implb' in H. rewrite Hd in H. apply andb_prop in H. destruct H as [H1 H2].
-  apply Z.eqb_eq in H2. tauto.
+  unfold timeout_ok, implb' in H. rewrite Hd in H. exact H.
 Qed.
 
 Theorem blocked_only_like_wrapped h s :
